@@ -6,6 +6,9 @@ from riolib.effects import effects
 from riolib import types as T
 from .c05 import fold_semantics
 
+THOROUGH_CONFIGS = ['dot', 'router']
+
+
 MANIFEST = {
     "text": "Static decision that the action is a function of the matched *set*: the sort dominates the fold; the rule order is total and consistent (Ord and Eq read exactly {rank, id}, partial_cmp delegates, direction descending on both keys, Route delegates to the handler); and every iteration over a hash-ordered container reachable from the action builder either feeds an order-insensitive sink or is followed by a sort of the sink with a total comparator.",
     "technique": "static analysis: dominance, field-effect sets, unordered-iteration -> ordered-sink audit over the call graph",
